@@ -143,4 +143,22 @@ theorem fresh_is_its_rotation (k M R W P C : Nat) (sig : List (List SInstr × Na
     rotApi k (Spec.Api.freshWith M R W P C sig) = Spec.Api.freshWith M R W P C sig :=
   rotApi_fresh k M R W P C sig
 
+/-- `reuse_rotate_reachable` — the same for every REACHABLE simulator: create a simulator with
+    any configuration inside the bounds of C01, apply any sequence of API calls (AddWarrior,
+    SpawnWarrior, RunCycle, Run, Reset … at offsets inside the core), then `Reset`: the result
+    meets all premises of `model_spawn_rotate` / `model_run_rotate` for every shift `k`. The
+    hypotheses are met by every valid configuration (e.g. the presets) and every call sequence
+    the `api` domain generates, so the statement is not vacuous. -/
+theorem reuse_rotate_reachable {c : Config} {s0 : Sim} {ops : List ApiOp} (k : Nat)
+    (hnew : Sim.new c = some s0) (hm : c.coreSize.toNat ≤ 2 ^ 32)
+    (hrl : c.readLimit.toNat ≤ c.coreSize.toNat) (hwl : c.writeLimit.toNat ≤ c.coreSize.toNat)
+    (hops : ∀ op ∈ ops, op.OK c.coreSize) :
+    ∃ (s : Sim) (a : Api), s0.applyOps ops = .ok s ∧
+      Pre s.reset ∧ StartsOK s.reset ∧
+      Rel s.reset (rotApi k (Spec.Api.freshWith a.M a.R a.W a.P a.C a.sig)) ∧
+      DataRel s.reset (rotApi k (Spec.Api.freshWith a.M a.R a.W a.P a.C a.sig)) := by
+  obtain ⟨hinv, hmc⟩ := new_inv hnew hm hrl hwl
+  obtain ⟨s, h1, h2⟩ := applyOps_refines ops hinv (by rw [hmc]; exact hops)
+  exact ⟨s, _, h1, reset_serves_as_rotated k ⟨h2.wf, h2.m32, h2.rl, h2.wl⟩ h2.starts h2.rel h2.data⟩
+
 end Gmars.Props.C12
